@@ -586,6 +586,13 @@ class AtLeastKInARow(_KInARow):
                 implications.append(If(And([Not(sublist[0]), sublist[1]]), And(sublist[2:])))
             # Ending corner case
             implications.append(If(Not(sublists[-1][1]), Not(Or(sublists[-1][2:]))))
+            # A run cannot start in the last k-1 trials of the range either when
+            # the trial before them has the level. (With a single window this
+            # already follows from the implications above.)
+            if len(sublists) > 1:
+                last = sublists[-1]
+                for i in range(3, len(last)):
+                    implications.append(If(last[i], last[i - 1]))
 
         (cnf, new_fresh) = block.cnf_fn(And(implications), backend_request.fresh)
 
